@@ -917,3 +917,7 @@ CASES["C12"] += [
 CASES["C12"] += [
     ("reintroduce F-46 (constants re-laid-out into a layout with an offset)", "mutant", "snaxc/transforms/realize_memref_casts.py", "@revert:8ce5ce3~1", "", ["C12.const-guards"]),
 ]
+
+CASES["C08"] += [
+    ("reintroduce F-47 (alu / phs loop count = first temporal bound)", "mutant", "snaxc/accelerators/snax_alu.py", "@revert:53cc874~1", "", ["C08.loop-count"]),
+]
